@@ -473,6 +473,8 @@ PROP, QUICK, SEED = "C01", True, 0
 def gen_doc(seed_info):
   """seed_info = (seed, chunk, index, scope-name): reproducible generation of one document"""
   seed, chunk, index, scope = seed_info
+  if scope == "wsgrid":
+    return ws_doc(index)
   r = rng(seed, f"isd/{scope}/{chunk}")
   docs = docgen.documents(r, index + 1, SCOPES[scope])
   d = None
@@ -490,10 +492,54 @@ SCOPES = {
 }
 
 
+WS_EDGES = ["", " ", "\n", "\r", "\t", "\r\n", " \n", "\u3000"]
+N_WS = 2 * len(WS_EDGES) * 2 * len(WS_EDGES) * 2
+
+
+def ws_doc(index):
+  """white-space grid: p > [span (xml:space a) 'x'+tail, (br)?, span (xml:space b) head+'y'] for every pair of edges over TAB, LF, CR, SPACE,
+  CR LF and U+3000, both xml:space values on either side, with and without a br in between (512 documents)"""
+  n = len(WS_EDGES)
+  br, index = index % 2, index // 2
+  hi, index = index % n, index // n
+  sb, index = index % 2, index // 2
+  ti, index = index % n, index // n
+  sa = index % 2
+  doc = m.ContentDocument()
+  reg = m.Region("r1", doc)
+  doc.put_region(reg)
+  body = m.Body(doc)
+  body.set_id("b")
+  doc.set_body(body)
+  div = m.Div(doc)
+  div.set_id("d")
+  body.push_child(div)
+  p = m.P(doc)
+  p.set_id("p")
+  p.set_region(reg)
+  div.push_child(p)
+  for k, (preserve, text) in enumerate(((sa, "x" + WS_EDGES[ti]), (sb, WS_EDGES[hi] + "y"))):
+    if k == 1 and br:
+      b = m.Br(doc)
+      b.set_id("br")
+      p.push_child(b)
+    sp_ = m.Span(doc)
+    sp_.set_id(f"s{k}")
+    sp_.set_space(m.WhiteSpaceHandling.PRESERVE if preserve else m.WhiteSpaceHandling.DEFAULT)
+    sp_.push_child(m.Text(doc, text))
+    p.push_child(sp_)
+  return doc
+
+
 def chunk(job):
   logging.disable(logging.CRITICAL)
   seed, ch, count, scope = job
   rec = Recorder(PROP, "", {})
+  if scope == "wsgrid":
+    for i in range(ch * (N_WS // 4), (ch + 1) * (N_WS // 4)):
+      info = (seed, ch, i, scope)
+      (check_c01 if PROP == "C01" else check_c13)(rec, ws_doc(i), info)
+    return rec
   r = rng(seed, f"isd/{scope}/{ch}")
   g = docgen.Gen(r, SCOPES[scope])
   r2 = rng(seed, f"isd-calls/{scope}/{ch}")
@@ -526,6 +572,8 @@ def main():
                  "0 and last+1; a case is non-trivial when the snapshot has content",
                  {"documents": per * 4 * len(SCOPES), "scopes": list(SCOPES), "times": "all interval boundaries + midpoints + 0 + last+1"})
   jobs = [(SEED, ch, per if scope != "background" or PROP in ("C14", "C02") else per // 2, scope) for scope in SCOPES for ch in range(4)]
+  if PROP in ("C01", "C13"):
+    jobs += [(SEED, ch, 0, "wsgrid") for ch in range(4)]       # the exhaustive white-space grid (512 documents)
   for part in parallel(chunk, jobs):
     rec.merge(part)
   return rec.dump(args.out)
